@@ -74,7 +74,9 @@ func TestD2(t *testing.T) {
 	try("Relations.Exchange dead target", func() {
 		w.Relations().Exchange(e, []ecs.ID{relID}, nil, relID, parent)
 	})
-	fmt.Println("  target:", w.Relations().Get(e, relID), "alive:", w.Alive(w.Relations().Get(e, relID)))
+	try("read back target", func() {
+		fmt.Println("  target:", w.Relations().Get(e, relID), "alive:", w.Alive(w.Relations().Get(e, relID)))
+	})
 	e2 := w.NewEntity(posID)
 	try("Builder.Add dead target", func() {
 		ecs.NewBuilder(&w, relID).WithRelation(relID).Add(e2, parent)
